@@ -27,7 +27,7 @@ MIN = {"quick": {"coverage": 1500, "density": 1000, "node_density": 2500, "edge_
        "thorough": {"coverage": 60000, "density": 40000, "node_density": 100000, "edge_contribution": 100000,
                     "inter_event(global)": 60000, "inter_event(node)": 100000, "inter_out_event(node)": 20000}}
 REQUIRED_CELLS = {t: ("state:multi-run", "state:interval", "state:isolated", "state:node-disappears",
-                      "state:>128-shared-snapshots", "ids:signs")
+                      "state:>128-shared-snapshots", "ids:signs", "state:>64-nodes", "state:numpy+>63-snapshots")
                   for t in ("quick", "thorough")}
 
 
@@ -80,6 +80,10 @@ def ratios(ctx, dn):
         nodes_ = sorted(set(n for x in els for n in x[:2]), key=repr)
         if len(nodes_) >= 2:
             t0 = max([x[2] for x in els if x[2] is not None] + [0]) + 20
+            if rng.random() < 0.5:
+                import numpy as np
+                t0 = np.int64(int(t0))           # numpy stamps AND many snapshots together
+                ctx.cell("state:numpy+>63-snapshots")
             span = rng.randint(130, 300)
             prog.append(("add", nodes_[0], nodes_[1], t0, t0 + span))
             if len(nodes_) > 2:
@@ -164,6 +168,36 @@ def evaluate_ratios(ctx, dn, G, m, last):
     ctx.nontrivial(m.state_key(), "ratios")
 
 
+def many_nodes(ctx, dn):
+    """70-100 nodes: the statistics that are linear in the number of nodes (coverage, avg_number_of_nodes,
+    node_contribution, node_presence) on a graph wider than a machine word"""
+    rng = ctx.rng
+    n = rng.randint(70, 100)
+    G = dn.DynGraph()
+    m = Model(False, True)
+    for i in range(n - 1):
+        t = rng.randint(0, 6)
+        e = t + rng.randint(1, 3)
+        G.add_interaction(i, i + 1, t, e)
+        m.apply(i, i + 1, t, e)
+    ctx.cases += 1
+    ctx.case = dict(workload="MANY-NODES", n=n)
+    ctx.cell("state:>64-nodes")
+    T = m.ids()
+    present = {t: set() for t in T}
+    for k, sset in m.P.items():
+        for t in sset:
+            present[t] |= set(k)
+    tot = sum(len(v) for v in present.values())
+    stat(ctx, "coverage", G.coverage, ratio(tot, len(T) * n), dict(n=n))
+    stat(ctx, "avg_number_of_nodes", G.avg_number_of_nodes, ratio(tot, len(T)), dict(n=n), unit=False)
+    for u in (0, 63, 64, 65, n - 1):
+        tu = set(t for t in T if u in present[t])
+        stat(ctx, "node_contribution", lambda: G.node_contribution(u), ratio(len(tu), len(T)), dict(u=u, n=n))
+        ctx.expect("node_presence", G.node_presence(u), tu, dict(u=u, n=n))
+    ctx.nontrivial("many-nodes", n, tuple(sorted((repr(k), tuple(sorted(v))) for k, v in m.P.items()))[:5])
+
+
 def hist(events):
     times = [e[3] for e in events]
     return dict(Counter(b - a for a, b in zip(times, times[1:])))
@@ -222,4 +256,6 @@ def run(ctx, dn):
     while ctx.time_left() > 1:
         ratios(ctx, dn)
         inter_event(ctx, dn)
+        if k % 40 == 3:
+            many_nodes(ctx, dn)
         k += 1
